@@ -217,3 +217,49 @@ func instFieldName(t types.Type, idx int) string {
 	}
 	return stT.Field(idx).Name()
 }
+
+// R03.24: no ALU helper ignores a parameter.
+//
+// Selection and mode parameters of the ALU helpers (sub-dword selects,
+// modifier flags, source indices, old register values) each carry a clause of
+// the ISA; a helper that does not look at one of its parameters has dropped
+// that clause (this is how the ignored dst_unused of the SDWA destination
+// select was found).
+func checkALUParamsUsed(c *core.Ctx, alus []aluDesc) {
+	st := c.Rule("R03.24", "every parameter of every function of the two ALU packages is used in its body (receivers and parameters named _ excepted): an ignored selection, mode, index or old-value parameter is a dropped clause of the instruction's definition; the exceptions are listed by name with a reason", 300)
+	allow := map[string]string{
+		"amd/emu.ComputeUnit.runEmulation:evt":     "event handler signature; the event carries no data",
+		"amd/emu.ComputeUnit.initLDS:wg":           "the LDS size is taken from the dispatch packet of the request",
+		"amd/emu.BuildComputeUnitWithALU:isCDNA3":  "the architecture is carried by the decoder and the ALU factory passed alongside",
+		"amd/emu/cdna3.ALU.vop3aPostprocess:state": "",
+	}
+	for _, a := range alus {
+		for _, fn := range c.SrcFuncs(a.pkg) {
+			if fn.Parent() != nil {
+				continue
+			}
+			for i, p := range fn.Params {
+				if i == 0 && fn.Signature.Recv() != nil {
+					continue
+				}
+				if p.Name() == "_" || p.Name() == "" {
+					continue
+				}
+				st.Instances++
+				used := p.Referrers() != nil && len(*p.Referrers()) > 0
+				key := a.pkg + "." + core.FuncName(fn) + ":" + p.Name()
+				if !used {
+					if why, ok := allow[key]; ok && why != "" {
+						st.Ob(true)
+						st.Sample("%s: ignored by design: %s", key, why)
+						continue
+					}
+				}
+				st.Ob(used)
+				if !used {
+					c.ReportAt("R03.24", fn, fn.Pos(), "ignored-parameter:"+core.FuncName(fn)+":"+p.Name(), fmt.Sprintf("%s never uses its parameter %s (%s): whatever the caller selects with it has no effect", core.FuncName(fn), p.Name(), p.Type()))
+				}
+			}
+		}
+	}
+}
